@@ -47,6 +47,7 @@ const (
 	opDisconnectDial   = 23 // client cl disconnects; the NEXT client (arg) is dialled from inside cl's close callback (if set)
 	opClientGone       = 24 // the client of a connection whose handler is blocked closes its end: the reply write will fail
 	opShutdownInServe  = 25 // first op: Shutdown is called from inside OnServeFunc (if set; else before Serve)
+	opWriteTimeout     = 26 // pseudo-op at the front: Server.WriteTimeout of the run in ms (cl; 0 = the server's default 50 ms)
 	opBurst            = 22 // first op: cl connections are queued in the listener before Serve starts; the accept callback (if set) rejects when told a count > arg (arg 0: no limit)
 )
 
@@ -89,6 +90,7 @@ type lcRun struct {
 	cancelled bool
 	shutBegun bool // some Shutdown call has been made: isShutdown is (being) set
 	limit     int
+	wt        time.Duration // effective write timeout of the server in this run
 	inbound   int
 	refused   int
 	escaped   int
@@ -133,7 +135,13 @@ func (h lcHandler) Handle(ctx context.Context, received packet.Request) (packet.
 		r.w.mu.Unlock()
 		panic(memErr{r.w.id, id, "handler panic"})
 	case hSleep:
-		time.Sleep(15 * time.Millisecond)
+		// longer than the server's write timeout: the reply must still be written (the write deadline
+		// counts from the write, not from the arrival of the request)
+		d := 15 * time.Millisecond
+		if r.wt <= 100*time.Millisecond {
+			d = r.wt + 10*time.Millisecond
+		}
+		time.Sleep(d)
 	}
 	r.w.log(evHandlerEnd, id, 1, 0)
 	if mode == hError {
@@ -168,7 +176,16 @@ func runLifecycle(cfg int, script []lcOp) (events []lcEvent, extra [3]int, summa
 	r.cancel = cancel
 	w.cancelFn = cancel
 	defer cancel()
-	s := &server.Server{ReadTimeout: 10 * time.Millisecond, WriteTimeout: time.Minute}
+	wt := time.Minute
+	if len(script) > 0 && script[0].op == opWriteTimeout {
+		wt = time.Duration(script[0].cl) * time.Millisecond
+		script = script[1:]
+	}
+	s := &server.Server{ReadTimeout: 10 * time.Millisecond, WriteTimeout: wt}
+	r.wt = wt
+	if wt == 0 {
+		r.wt = 50 * time.Millisecond // the server's default
+	}
 	r.srv = s
 	inServe := len(script) > 0 && script[0].op == opShutdownInServe
 	if cfg&1 != 0 {
@@ -813,6 +830,9 @@ func (r *lcRun) doRelease() {
 	if len(bl) == 0 {
 		return
 	}
+	if r.wt <= 100*time.Millisecond {
+		time.Sleep(r.wt + 5*time.Millisecond) // the blocked handlers have now run for longer than the write timeout
+	}
 	r.w.mu.Lock()
 	close(r.release)
 	r.release = make(chan struct{})
@@ -1086,6 +1106,22 @@ func lcRandomScript(g *rng) []lcOp {
 	return s
 }
 
+// lcWithWriteTimeout puts the run's Server.WriteTimeout in front of the script: 10 ms (every handler that
+// sleeps or blocks takes longer than that), in every fourth run the server's default of 50 ms (with
+// handlers of 60 ms), and one minute for the scripts with a slow reader, whose Write is meant to block
+func lcWithWriteTimeout(sc []lcOp, n int) []lcOp {
+	ms := 10
+	if n%4 == 3 {
+		ms = 0
+	}
+	for _, o := range sc {
+		if o.op == opSendSlow {
+			ms = 60000
+		}
+	}
+	return append([]lcOp{{opWriteTimeout, ms, 0}}, sc...)
+}
+
 func init() {
 	streams["lifecycle"] = func(seed uint64, thorough bool) {
 		g := newRng(seed ^ 0x17c17)
@@ -1102,10 +1138,10 @@ func init() {
 		}
 		for cfg := 0; cfg < 16; cfg++ {
 			for _, sc := range lcFixedScripts() {
-				jobs = append(jobs, job{cfg, sc})
+				jobs = append(jobs, job{cfg, lcWithWriteTimeout(sc, len(jobs))})
 			}
 			for i := 0; i < nrand; i++ {
-				jobs = append(jobs, job{cfg, lcRandomScript(g)})
+				jobs = append(jobs, job{cfg, lcWithWriteTimeout(lcRandomScript(g), len(jobs))})
 			}
 		}
 		type res struct {
